@@ -180,6 +180,9 @@ def observer_arms(d, T, validated):
         creators["canon_via_from"] = "Some(<%s as From<Inner>>::from(x.clone()))" % T
     if serde_ok:
         creators["canon_via_deser"] = "serde_json::to_string(&x).ok().and_then(|s| serde_json::from_str::<%s>(&s).ok())" % T
+        # values obtained (if at all) on routes that do not go through visit_newtype_struct
+        creators["canon_via_deser_seq"] = "serde_json::to_string(&x).ok().and_then(|s| probe::de::<%s>(\"seq_json\", &probe::Doc::Text(s)).ok())" % T
+        creators["canon_via_deser_ronv"] = "probe::ser(\"ron\", &refty::Nt(x.clone())).ok().and_then(|d| probe::de::<%s>(\"ron_value\", &d).ok())" % T
     for ep, mkexpr in creators.items():
         arms.append(
             '"%s" => { let x: Inner = <Inner as Dec>::dec(inp); '
